@@ -80,6 +80,8 @@ def random_domain_op(rng, sim, maxlen=40):
         return {"k": k, "v": R(rng.choice([Fraction(1, 2), 2, 3, -1, -2])), "as_int": rng.random() < 0.3}
     if k in ("normalize_x", "normalize_y"):
         lo = rng.randint(-3, 3)
+        if rng.random() < 0.25:      # a target range inside [0, 1]: abscissae that look like ratios of a span (seed C08j: a ratio bound
+            return {"k": k, "lo": R(Fraction(3, 8)), "hi": R(Fraction(9, 16))}      # compared with the positions)
         return {"k": k, "lo": R(lo), "hi": R(lo + rng.randint(1, 4))}
     if k == "repeat":
         return {"k": k, "r": rng.randint(1, 3)}
@@ -88,7 +90,7 @@ def random_domain_op(rng, sim, maxlen=40):
         e = rng.choice([NONEINT, rng.randint(s + 2, n)])
         return {"k": k, "start": s, "stop": e}
     i, j = sorted(rng.sample(range(n), 2))
-    if rng.random() < 0.5:
+    if rng.random() < 0.5 or (x[0] >= 0 and x[-1] <= 1 and rng.random() < 0.8):      # (abscissae that look like ratios: mostly ratio bounds)
         span = x[-1] - x[0]
         l = Fraction(rng.randint(0, 6), 16)
         r = Fraction(rng.randint(9, 16), 16)
